@@ -69,7 +69,7 @@ class UpdateRequestsFromFile(SimulationUpdateFunction):
             if stepper is None:
                 raise ValueError("DictReaderStepper should have returned a non-null value")
         else:
-            with req_path.open() as f:
+            with req_path.open(encoding="utf-8-sig") as f:
                 # converting to tuple then back to iterator should bring the whole file into memory
                 reader_iter = iter(tuple(DictReader(f)))
 
